@@ -28,6 +28,7 @@ func checkC07(c *Ctx) {
 	c.Rule("C07/R8", ".config in a filter and .unit in a projection are rejected with a syntax error")
 
 	c.Rule("C07/R12", "any string is usable as a quoted literal: every token returned by the quoted-word scanner has the quoted-word kind or is the error token, independent of its text")
+	c.Rule("C07/R20", "a projection field prints so that it reads back: in parse.Field.String no element of the fixed value list reaches the text except as quoteWord's result")
 	c.Rule("C07/R19", "what the tokenizer skips as a space is what ends a bare word: the space recogniser, evaluated for sample first bytes (comparisons of the byte and unicode.IsSpace answered from the sample), returns a positive width exactly for the bytes unicode.IsSpace accepts")
 	c.Rule("C07/R18", "an error's offset lies in the text: the position argument of every errorTracker.error call is a piece of the text, never a constant")
 	c.Rule("C07/R17", "every field of a projection expression is validated: every path through an iteration of the loop over the parsed fields in ProjectionParser.Parse passes makeProjection")
@@ -118,6 +119,7 @@ func checkC07(c *Ctx) {
 	c07EveryPartMade(c, p, "C07/R17")
 	c07ErrorPositions(c, p)
 	c07SpaceAgrees(c, p)
+	c07EveryWordQuoted(c, p)
 }
 
 // byteIndexOf: v is a byte read s[i] (string Lookup or load of IndexAddr); returns the index value.
